@@ -15,12 +15,12 @@ res = re.findall(r'test result: (\w+)\. (\d+) passed; (\d+) failed', conf)
 demo = re.findall(r'^\+\s*fn (\w+)\(\)', open(os.path.join(src, 'demo.diff')).read(), re.M)
 files = re.findall(r'^diff --git a/(\S+)', open(os.path.join(src, 'patch.diff')).read(), re.M)
 meta = {
-    'id': '%s-%s' % (prop, m), 'breaks_property': prop, 'files_changed': files,
+    'id': '%s-%s' % (prop, m), 'breaks_property': prop[:3], 'files_changed': files,
     'needs_to_manifest': needs,
     'demonstration': {'kind': 'rust #[test] added by demo.diff', 'tests': demo,
                       'command': 'cargo test -p lightning --offline --lib -- <test name>'},
     'confirmed_by_me': {
-        'how': 'tools_confirm_mutant.sh in a scratch worktree of /repo@aa69558 (/tmp/mut/%s, removed afterwards): apply patch+demo, run demo (must fail), run the whole lightning lib suite with the patch (must pass), revert patch, run demo (must pass)' % prop,
+        'how': 'tools_confirm_mutant.sh in a scratch worktree of /repo (original snapshot aa69558 for rounds 1-3, a2eba39 for round 4) (/tmp/mut/%s, removed afterwards): apply patch+demo, run demo (must fail), run the whole lightning lib suite with the patch (must pass), revert patch, run demo (must pass)' % prop,
         'demo_with_patch': res[0][0] if len(res) > 0 else '?',
         'lib_suite_with_patch': ('%s passed, %s failed' % (res[1][1], res[1][2])) if len(res) > 1 else '?',
         'demo_without_patch': res[2][0] if len(res) > 2 else '?'},
